@@ -58,6 +58,15 @@ def check_compile(ctx, ci, comp):
     paths = [p for p in w.paths(comp.node, cls=ci) if not p.raises()]
     ctx.unit('paths', len(paths))
     consts = {}
+    # constants of the module (tables computed once, at import): names bound once at top level
+    tree = repo.modules[ci.module]['tree']
+    stores = {}
+    for n_ in ast.walk(tree):
+        if isinstance(n_, ast.Name) and isinstance(n_.ctx, (ast.Store, ast.Del)):
+            stores[n_.id] = stores.get(n_.id, 0) + 1
+    for st_ in tree.body:
+        if isinstance(st_, ast.Assign) and len(st_.targets) == 1 and isinstance(st_.targets[0], ast.Name) and stores.get(st_.targets[0].id) == 1:
+            consts[st_.targets[0].id] = st_.value
     for c in reversed(repo.mro(ci)):
         for k, v in c.attrs.items():
             consts['self.%s' % k] = v
@@ -86,8 +95,15 @@ def check_compile(ctx, ci, comp):
         if all_widths:
             variants = [dict(env, **{'self.byte_count': n, 'self.is_signed': sg}) for n in WIDTHS for sg in (False, True)]
         got = set()
+        open_guard = None
         for env_ in variants:
             sel = select_paths(paths, env_, consts)
+            if len(sel) > 1:
+                from ..fold import guard_truth
+                for p in sel:
+                    for g, pol in p.guards:
+                        if guard_truth(g, pol, env_, consts) is None:
+                            open_guard = canon(g)
             if not sel:
                 ctx.violation(rule, comp, label, 'no path of Int._compile handles this configuration (width %s)' % env_['self.byte_count'], comp.node.lineno, clause=clause)
                 return
@@ -102,6 +118,8 @@ def check_compile(ctx, ci, comp):
                 got.add(g_)
         if got == {want}:
             ctx.holds(rule, comp, '%s -> %s' % (label, want if not isinstance(want, tuple) else ' / '.join(map(str, want))), 'as documented', comp.node.lineno, clause=clause)
+        elif len(got) > 1 and open_guard is not None:
+            ctx.undecided(rule, comp, label, 'the configuration does not decide which path of Int._compile is taken (%s does not fold)' % open_guard[:80], comp.node.lineno, clause=clause)
         else:
             ctx.violation(rule, comp, '%s -> %s' % (label, sorted(map(str, got))), 'expected %s' % (want,), comp.node.lineno, clause=clause)
 
